@@ -8,6 +8,7 @@ import (
 	"fmt"
 	"go/token"
 	"go/types"
+	"sort"
 	"strings"
 
 	"golang.org/x/tools/go/ssa"
@@ -715,29 +716,70 @@ func init() {
 	// ---------------- C19 ----------------
 	register(&Rule{
 		ID: "C19-e", Template: "agreement (Reset re-arms what the life cycle sets)",
-		Doc: "A sorter can be reused after Reset: every field of sorter.Sorter that AddRow or Close assigns is also assigned by Reset. A state flag set by Close and never cleared by Reset would turn later Close calls into no-ops and leak the spill files of every later sort.",
+		Doc: "A sorter can be reused after Reset: every field of sorter.Sorter that any of its methods (or the goroutines they start) assigns — AddRow, Close, SetColumns, lazily filled caches — is also assigned by Reset. A state flag set by Close and never cleared by Reset would turn later Close calls into no-ops and leak the spill files of every later sort.",
 		Min: 3,
 		Run: func(p *Program, r *RuleResult) error {
 			reset, err := p.SSAFunc("pkg/sorter.(*Sorter).Reset")
 			if err != nil {
 				return err
 			}
-			r.Analysed = 3
 			resetFields := fieldsStoredIn(reset)
 			for _, name := range []string{"AddRow", "Close"} {
-				fn, err := p.SSAFunc("pkg/sorter.(*Sorter)." + name)
-				if err != nil {
+				if _, err := p.SSAFunc("pkg/sorter.(*Sorter)." + name); err != nil {
 					return err
 				}
+			}
+			// input-specific configuration that every user assigns itself after Reset
+			// (C19-g checks that it is assigned before the first row is added)
+			exempt := map[string]string{
+				"PK":       "key positions of the next input: assigned by the caller (or SortFile) after Reset, before any row is added (C19-g)",
+				"profiler": "re-created by SetColumns together with Columns, which Reset empties: an input cannot be added without calling SetColumns again",
+			}
+			var methods []*ssa.Function
+			for _, fn := range p.FuncsInPkg("pkg/sorter") {
+				if fn.Parent() != nil || fn == reset || fn.Signature.Recv() == nil {
+					continue
+				}
+				if n, ok := derefType(fn.Signature.Recv().Type()).(*types.Named); !ok || n.Obj().Name() != "Sorter" {
+					continue
+				}
+				methods = append(methods, fn)
+			}
+			r.Analysed = len(methods)
+			for _, fn := range methods {
+				name := fn.Name()
+				// closures of the method (the producer goroutines) count as the method
 				fs := fieldsStoredIn(fn)
-				if len(fs) == 0 {
+				var addAnon func(f *ssa.Function)
+				addAnon = func(f *ssa.Function) {
+					for _, af := range f.AnonFuncs {
+						for fv := range fieldsStoredIn(af) {
+							fs[fv] = true
+						}
+						addAnon(af)
+					}
+				}
+				addAnon(fn)
+				var sorterFields []*types.Var
+				for fv := range fs {
+					if fv.Pkg() != nil && fv.Pkg().Path() == modPath+"/pkg/sorter" {
+						sorterFields = append(sorterFields, fv)
+					}
+				}
+				sort.Slice(sorterFields, func(i, j int) bool { return sorterFields[i].Name() < sorterFields[j].Name() })
+				if len(sorterFields) == 0 && (name == "AddRow" || name == "Close") {
 					r.okWhy(funcName(fn)+"|fields", p.Rel(fn.Pos()), "fields set by "+name+" are re-armed by Reset", name+" assigns no field")
 				}
-				for fv := range fs {
+				for _, fv := range sorterFields {
+					if !isFieldOfSorter(fv, fn) {
+						continue
+					}
 					key := fmt.Sprintf("%s|field %s", funcName(fn), fv.Name())
 					what := "field set by " + name + " is re-armed by Reset"
 					if resetFields[fv] {
 						r.ok(key, p.Rel(fn.Pos()), what)
+					} else if why, ok := exempt[fv.Name()]; ok {
+						r.exempt(key, p.Rel(fn.Pos()), what, why)
 					} else {
 						r.bad(key, p.Rel(fn.Pos()), what, "Sorter."+fv.Name()+" is assigned by "+name+" but never by Reset: a reused sorter keeps the stale value")
 					}
@@ -746,6 +788,20 @@ func init() {
 			return nil
 		},
 	})
+}
+
+// isFieldOfSorter: fv is a field of the receiver's struct type.
+func isFieldOfSorter(fv *types.Var, fn *ssa.Function) bool {
+	st, ok := derefType(fn.Signature.Recv().Type()).Underlying().(*types.Struct)
+	if !ok {
+		return false
+	}
+	for i := 0; i < st.NumFields(); i++ {
+		if st.Field(i) == fv {
+			return true
+		}
+	}
+	return false
 }
 
 func isCloseCall(in ssa.Instruction) (ssa.Value, bool) {
